@@ -724,3 +724,26 @@ C20_JOBS = [
     ('nbdime.webapp.nbdimeserver.ApiDiffHandler.post', HANDLER, [('consistent', df_consistent), ('frame', hd_frame)], False),
     ('nbdime.webapp.nbdimeserver.ApiMergeHandler.post', HANDLER, [('library', mg_library), ('frame', hd_frame)], False),
 ]
+
+HANDLER_ARG = dict(HANDLER, **{
+    '*.seek': {'effect': 'seek', 'raises': True, 'returns': 'none'},
+    'nbformat.read': {'effect': 'nb_read', 'raises': True},
+    '<self>.read_notebook': {'effect': 'read_by_name', 'raises': True},
+    'builtins.super': {'effect': None, 'raises': False},
+    '*.get_notebook_argument': {'effect': 'super_arg', 'raises': True},
+})
+
+
+def da_rewinds_streams(path):
+    "a file-like tool argument is rewound (seek(0)) before every read, so that the N-th request reads the same notebook as the first"
+    for r in _eff(path, 'nb_read'):
+        before = [e for e in path.effects[:path.effects.index(r)] if e.name == 'seek']
+        if not before:
+            return False, 'stream read without rewinding'
+        s = before[-1]
+        if not as_py(s.args[0]).eq(as_py(r.args[0])) or s.args[-1].kind != 'const' or s.args[-1].t != 0:
+            return False, 'the stream read is not the one rewound to 0'
+    return True, 'streams rewound'
+
+
+C20_JOBS.append(('nbdime.webapp.nbdimeserver.ApiDiffHandler.get_notebook_argument', HANDLER_ARG, [('rewinds-streams', da_rewinds_streams), ('frame', hd_frame)], False))
